@@ -105,6 +105,10 @@ def out_finality_by_value(chk, repo, key, clause):
                 continue
             if e.kind == 'call' and e.depth == 0 and (e.data.get('bound') or {}).get('out') == out and \
                     repo.has_func(str(e.data.get('callee'))) and e.data.get('result') is not None:
+                if chain is not None and any(k_ != 'out' and v_ == chain for k_, v_ in (e.data.get('bound') or {}).items()):
+                    chk.ob(clause, 'E-finality', key, f'the buffer is not also the input of the call that fills it [{conds_str(p)[:60]}]', False,
+                           f'{e.data.get("callee")} receives the content of `out` as an argument and `out` as its output: intermediate '
+                           'values written there have the shape of the result, not of the input', f.loc(e.node))
                 chain = e.data.get('result')        # delegated to a function of the package that fills `out` (checked there)
                 continue
             if e.kind != 'write':
@@ -516,6 +520,12 @@ def ctor_forwarding_rule(chk, repo, clause, module='plane'):
             pnames = set(ppos) | {a.arg for a in parent.node.args.kwonlyargs}
             given = {k.arg for k in node.keywords if k.arg} | set(ppos[:len(node.args)])
             n += 1
+            if init.node.args.kwarg is not None and parent.node.args.kwarg is not None:
+                kw_ = init.node.args.kwarg.arg
+                handed = any(k.arg is None and isinstance(k.value, ast.Name) and k.value.id == kw_ for k in node.keywords)
+                used_kw = [x for x in ast.walk(init.node) if isinstance(x, ast.Name) and x.id == kw_ and isinstance(x.ctx, ast.Load)]
+                if not handed and not used_kw:
+                    bad.append(f'{cls.key}.__init__ accepts **{kw_} and hands none of it to {parent.key} at {init.loc(node)}')
             for q in own:
                 if q in pnames and q not in given:
                     # used some other way (folded into another argument) is fine; accepted and never mentioned again is not
@@ -563,7 +573,7 @@ PROPERTY_MODULES = {
     'C01': ['fourier'], 'C02': ['propagate', 'fourier', 'extent', 'field', 'wavefront', 'util'],
     'C03': ['plane', 'helper', 'field', 'wavefront', 'propagate', 'fourier', 'extent'], 'C04': ['plane', 'field', 'propagate', 'wavefront'],
     'C05': ['fourier', 'propagate', 'util', 'wavefront'], 'C06': ['field', 'extent'],
-    'C07': ['wavefront', 'plane', 'field'], 'C08': ['plane', 'propagate', 'ptype', 'wavefront'],
+    'C07': ['wavefront', 'plane', 'field'], 'C08': ['plane', 'propagate', 'ptype', 'wavefront', 'field'],
     'C09': ['propagate', 'util', 'field'], 'C11': ['zernike', 'helper', 'util'], 'C12': ['zernike'],
     'C13': ['radiometry'], 'C14': ['radiometry'], 'C15': ['radiometry'], 'C16': ['detector', 'radiometry'],
     'C17': ['plane', 'util'], 'C18': ['detector', 'wfe', 'helper'], 'C19': ['detector', 'convolvable'],
@@ -1245,6 +1255,37 @@ def crossed_arguments_rule(chk, repo, clause, mods):
     if n_acc:
         chk.ob(clause, 'B3-binding', 'lentil.' + '/'.join(mods), 'a running minimum / maximum is updated from its own previous value',
                not acc_bad, '; '.join(acc_bad[:2]), '')
+    # one method name, several classes, different positional orders (Tilt.shift(xs, ys, z, wavelength) against
+    # DispersiveTilt.shift(wavelength, xs, ys, z)): a call on "whichever of them" names its arguments
+    by_name = {}
+    for g in repo.all_functions():
+        if g.cls is not None and not g.name.startswith('__') and not g.is_property and not g.is_setter:
+            ps_ = [x for x in g.param_names() if x not in ('self', 'cls')]
+            by_name.setdefault(g.name, {})[g.cls.key] = ps_
+    divergent = {nm_: v_ for nm_, v_ in by_name.items() if len(v_) > 1 and
+                 any(a_[:k_] != b_[:k_] for a_ in v_.values() for b_ in v_.values()
+                     for k_ in (min(len(a_), len(b_)),) if set(a_[:k_]) & set(b_[:k_]) and a_ != b_)}
+    poly_bad, n_poly = [], 0
+    for f in repo.all_functions():
+        if f.module.name not in mods:
+            continue
+        for node in ast.walk(f.node):
+            if isinstance(node, ast.Call) and isinstance(node.func, ast.Attribute) and node.func.attr in divergent:
+                recv = node.func.value
+                if isinstance(recv, ast.Name) and recv.id in ('self', 'cls') or \
+                        isinstance(recv, ast.Call) and isinstance(recv.func, ast.Name) and recv.func.id == 'super':
+                    continue
+                if isinstance(recv, ast.Name) and recv.id[:1].isupper():
+                    continue        # Class.method(...): one particular implementation
+                n_poly += 1
+                if node.args and not any(isinstance(a_, ast.Starred) for a_ in node.args):
+                    orders = sorted({tuple(v_[:len(node.args)]) for v_ in divergent[node.func.attr].values()})
+                    if len(orders) > 1:
+                        poly_bad.append(f'{f.key} at {f.loc(node)}: `{ast.unparse(node)[:50]}` passes {len(node.args)} argument(s) by position; '
+                                        f'the implementations of `{node.func.attr}` take them as {" / ".join(str(list(o)) for o in orders)}')
+    if n_poly:
+        chk.ob(clause, 'B3-binding', 'lentil.' + '/'.join(mods), 'a call on any of several sibling implementations names its arguments',
+               not poly_bad, '; '.join(poly_bad[:2]), '')
     chk.ob(clause, 'B3-binding', 'lentil.' + '/'.join(mods), 'internal calls pass like-named variables for like-named parameters',
            (not bad) if n else None, '; '.join(sorted(set(bad))[:3]) or f'{n} resolved call site(s)', '')
 
